@@ -50,7 +50,9 @@ CHECKS = {
         text='HandsAreLaw / Conservation / AcceptedIffLaw (every seat x card offered in every state) on the reduced-pack '
              'models; on the real objects out-of-turn plays, cards of another seat and cards already played are injected at '
              'every position of full boards, and TLC rejects any accepted-but-illegal play and any refused play that '
-             'changed the projected state.',
+             'changed the projected state. Hands objects that were re-dealt (seat attributes assigned) are played on too; '
+             'a table half runs real sessions with an offence in the play under the baton: the refused card is not passed '
+             'on to the other seats (TableTrace).',
         design_ref='DESIGN.md 3 C05',
         note=TRUST + 'as C04.',
         technique='TLA+ model checking (TLC) + trace validation with injected refused plays'),
@@ -59,7 +61,9 @@ CHECKS = {
         text='PlayableIsLaw in every reachable state of the reduced-pack models and for all hands x leads of a 12-card '
              'pack (spec); the real available_cards / current_available_cards* / RandomPlay are called on the same table, on '
              'full-size hands of every size x every led card and in every state of the driven boards, and TLC validates '
-             'each answer against LawPlayable.',
+             'each answer against LawPlayable. A table half runs real sessions (passed-out boards in every position) and '
+             'validates, at every decision, the set the bundled client offered to its playing system (OfferClauses of '
+             'TableTrace); one RandomPlay object serving two tables at once is explored by line-level preemption.',
         design_ref='DESIGN.md 3 C06',
         note=TRUST + 'RandomPlay is sampled (seeded), not enumerated.',
         technique='TLA+ model checking (TLC) + trace validation of the playable-set queries'),
